@@ -11,7 +11,7 @@ no room for the pending bytes" are REFUTED on the model (witness = finding F7).
 TIE: correspondence. (1) harness/c13_buf.c looks at the caller's buffer right after the posting call, after each kind of
 exit, scribbles over the buffer of a buffered put before the wait and reads the variable back: sizes on both sides of
 NC_BYTE_SWAP_BUFFER_SIZE, all types, typed/flexible/vector layouts, derived buffer types without gaps (contiguous(k),
-nested contiguous, contiguous of vector(2,bl,bl): element count bnelems <> buftype count bufcount), collective and independent
+nested contiguous, contiguous of vector(2,bl,bl), arrays of padded records resized(contiguous(bl),0,st) with bufcount > 1: element count bnelems <> buftype count bufcount), collective and independent
 blocking puts, transposing imap on the get side, hints
 nc_in_place_swap enable/disable/auto; compared with Abuf.put_swaps_user_buf / in_swapn / unpack_xbuf evaluated in Coq.
 (2) random attach/bput/iput/iget/wait/cancel/detach/inq_buffer histories through harness/pnc_impl.c compared with the
